@@ -67,6 +67,18 @@ for sn, kw in SOLV.items():
             if c1 != c2: R.fail("c20.routes_same_config", "config differs between routes", inp, c2, c1)
         except Exception as ex:
             R.fail("c20.route_works", f"a construction route raised {type(ex).__name__}", inp, str(ex)[:200])
+# ---------------------------------------------------------------- the saved-configuration route describes the solver that wrote LAST into a directory (re-used output directory)
+try:
+    d = os.path.join(scratch, "reused_dir")
+    a1 = S.ValueIteration(Forest(S=6), gamma=0.5, epsilon=0.1, verbose=0, checkpoint_dir=d, checkpoint_frequency=1); a1.solve(2)
+    a2 = S.ValueIteration(Forest(S=6), gamma=0.95, epsilon=1e-6, verbose=0, checkpoint_dir=d, checkpoint_frequency=5); a2.solve(5)
+    if getattr(a2, "checkpoint_manager", None) is not None: a2.checkpoint_manager.wait_until_finished()
+    inp = dict(history="solver A (gamma 0.5, eps 0.1, f=1) writes into D; solver B (gamma 0.95, eps 1e-6, f=5) writes into the same D; restore(D)"); R.case(("reused_directory",), inp)
+    r = S.ValueIteration.restore(d, new_checkpoint_dir=d + "_r")
+    got = dict(gamma=float(r.gamma), epsilon=float(r.epsilon), checkpoint_frequency=int(r.checkpoint_frequency)); want = dict(gamma=0.95, epsilon=1e-6, checkpoint_frequency=5)
+    if got != want: R.fail("c20.saved_config_is_the_last_writers", "restore() of a re-used directory rebuilds a solver with another configuration than the one that wrote the latest checkpoint", inp, got, want)
+except Exception as ex:
+    R.fail("c20.route_works", f"re-used directory: {type(ex).__name__}", dict(history="two solvers, one directory"), str(ex)[:200])
 # ---------------------------------------------------------------- every accepted parameter set works
 for sn in (SOLV if TH else ["ValueIteration", "PolicyIteration", "SemiAsyncValueIteration", "PeriodicValueIteration"]):
     for g, eps in itertools.product(([0.0, 1e-3, 0.5, 1.0] if sn != "RelativeValueIteration" else [1.0]), ([1e-8, 1.0, 250.0, 1e6] if TH else [1e-8, 250.0])):
